@@ -13,7 +13,8 @@ Writes /verif/seeded/<property>-<name>/{patch.diff, demo*, meta.json} when 1-3 h
 import json, os, re, shutil, subprocess, sys, time
 
 V = os.path.dirname(os.path.dirname(os.path.abspath(__file__)))
-ENV = dict(os.environ, GOFLAGS="-mod=mod", GOPROXY="off", CGO_LDFLAGS="-L" + os.path.join(V, "stubs"))
+ENV = dict(os.environ, GOFLAGS="-mod=mod", GOPROXY="off", CGO_LDFLAGS="-L" + os.path.join(V, "stubs"),
+           PKG_CONFIG_PATH="/tmp/jemstub/lib/pkgconfig")  # optional header-only jemalloc stub so rpc test packages link
 ENV.pop("GOSUMDB", None); ENV.pop("GOTOOLCHAIN", None)
 
 
@@ -51,7 +52,7 @@ def main():
             res["error"] = out[-800:]
             return res
         # demonstration
-        demo_files = [f for f in os.listdir(seed) if f not in ("patch.diff", "meta.json")]
+        demo_files = [f for f in os.listdir(seed) if f not in ("patch.diff", "meta.json") and os.path.isfile(os.path.join(seed, f))]
         demo_pkg = ((meta.get("demo_pkg", "").split() or [""])[0]).strip("./") or (touched[0] if touched else ".")
         created_pkg = not os.path.isdir(os.path.join(wt, demo_pkg))
         os.makedirs(os.path.join(wt, demo_pkg), exist_ok=True)
@@ -107,7 +108,7 @@ def main():
             d = os.path.join(V, "seeded", "%s-%s" % (pid, name))
             os.makedirs(d, exist_ok=True)
             for f in os.listdir(seed):
-                if f != "meta.json":
+                if f != "meta.json" and os.path.isfile(os.path.join(seed, f)):
                     shutil.copy(os.path.join(seed, f), os.path.join(d, f))
             m = dict(meta)
             m["confirmed"] = {k: res.get(k) for k in ("repo_head", "applies", "builds", "demo_fails_with_change", "demo_passes_without_change",
